@@ -287,6 +287,13 @@ def run(ctx):
         ("emap", 'mp["k"]', lambda v: dict(v["mp"])["k"]),
         ("enested", "inner.q + inner.p", lambda v: v["inner"][0] + v["inner"][1]),
         ("efarr", "farr[1, 0]", lambda v: v["farr"][2]),
+        # postfix operators bind tighter than a sign; a negated base of ** keeps its parentheses
+        ("enegmem", "-inner.q + 1", lambda v: -v["inner"][1] + 1),
+        ("enegidx", "-vec[0]", lambda v: -v["vec"][0]),
+        ("enegarr", "-arr[1, 2] - 1", lambda v: -v["arr"][1 * 3 + 2] - 1),
+        ("enegpowl", "(-3.0) ** 2", lambda v: 9.0),
+        ("enegpowu", "(-da) ** 2", lambda v: v["da"] ** 2),
+        ("enegpowi", "(-2) ** 3 + 0.0", lambda v: -8.0),
     ]
     SW = [("eswu", "un", [("int32 i", "i + 1"), ("string s", "0 - 1")], lambda v: (v["un"][1] + 1) if v["un"][0] == 0 else -1),
           ("eswo", "opt", [("int32 x", "x * 2"), ("_", "7")], lambda v: 7 if v["opt"] is None else v["opt"][1] * 2),
